@@ -675,6 +675,12 @@ func (e *Env) call(x *Expr) TTerm {
 			e.g.Global(n, "Iface", true)
 			return TTerm{S: n, Sort: "Iface"}
 		}
+	case "byteOf":
+		// byteOf(s, i): s[i] through a function symbol, for use under quantifiers with the trigger {byteOf(s, i)}
+		if need(2) && a[0].Sort == "Str" {
+			return I("(gs.byteat " + a[0].S + " " + a[1].S + ")")
+		}
+		return e.fail("byteOf(string, index)")
 	case "jsonInput":
 		// the induction hypothesis of the C18 sweep: every value received so far is a finite JSON value
 		return B("c18.ih")
